@@ -98,13 +98,13 @@ func Report(verifDir string, m *Merged, start time.Time, writeEvidence bool) int
 
 	if writeEvidence {
 		cov := map[string]interface{}{
-			"evaluations":         m.Evaluations,
-			"distinct_nontrivial": len(m.Fingerprints),
-			"rule":                p.Rule,
-			"samples":             m.Samples,
-			"cases_planned":       m.Cases,
-			"cases_executed":      m.Executed,
-			"inconclusive":        len(m.Inconclusive),
+			"evaluations":               m.Evaluations,
+			"distinct_nontrivial":       len(m.Fingerprints),
+			"rule":                      p.Rule,
+			"samples":                   m.Samples,
+			"cases_planned":             m.Cases,
+			"cases_executed":            m.Executed,
+			"inconclusive":              len(m.Inconclusive),
 			"known_findings_reobserved": knownSeen,
 		}
 		if m.Samples == nil {
